@@ -179,6 +179,7 @@ func blkRun(args []string) error {
 	if err != nil {
 		return err
 	}
+	w.flush = true // a decoder fault that cannot be recovered kills the process: keep what was observed
 	r := newDecRunner()
 	n := 0
 	fills := []func(int) byte{
